@@ -113,6 +113,9 @@ func Generate(t *tape.Tape, p Profile) *World {
 	if p.Clusters && t.Chance(1, 6) {
 		g.nestedGroupCalls()
 	}
+	if p.Clusters && t.Chance(1, 6) {
+		g.namedBasicElems()
+	}
 	if p.Clusters && t.Chance(1, 5) {
 		g.curriedPair()
 	}
